@@ -136,7 +136,11 @@ def well_formed_master(mw):
             and all(k not in ("none", "auto") for k in keys))
 
 
-def plus_form(sw):
+def plus_form(sw, mw=None):
+    # the complete list of the master's alternatives, unstarred, is what format() writes when nothing is selected: it is
+    # not the a+b form, also if names contain "+" (the reading fixed by /repo 2097a6c; C09 needs that text to read back)
+    if mw is not None and [w[0] for w in sw] == [unstar(m[0]) for m in mw]:
+        return False
     if any(w[1] != "n" or w[0].startswith("*") for w in sw):
         return False
     if not any("+" in w[0] for w in sw):
@@ -144,14 +148,14 @@ def plus_form(sw):
     return all(p.strip() != "" for p in "".join(w[0] for w in sw).split("+")[1:])
 
 
-def asked(sw, mand):
+def asked(sw, mand, mw=None):
     """What the source asks for, read off the property text.
     -> ("auto",) | ("sel", selected names as written (flagged occurrences, in order), {key: final decision})"""
     if is_plain(sw, "auto"):
         return ("auto",)
     if is_plain(sw, "none") and not mand:
         return ("sel", [], {})
-    if plus_form(sw):
+    if plus_form(sw, mw):
         names = [p for w in sw for p in w[0].split("+") if p != ""]
         return ("sel", names, {n.lower(): True for n in names})
     flagged = []
@@ -167,7 +171,7 @@ def asked(sw, mand):
 def prop_fetch(mw, sw, multi, opt, F, E, check_lines=True):
     mand = mand_of(opt)
     keys = [key_of(w[0]) for w in mw]
-    a = asked(sw, mand)
+    a = asked(sw, mand, mw)
     if a[0] == "auto":
         if F != ["ok", [["Auto", "n", "0"]]]:
             return "source Auto: result words are %r" % (F,)
